@@ -43,7 +43,13 @@ M = {
 "C16-s2": ("C16", "Card::remove_child, DynamicCall arm: guard `i < len` instead of `i - 1 < len`.", "Removing the last argument of a DynamicCall.", "caught at first run by C16.S"),
 }
 # round 3: the first run was done through the self-test harness; these were not reported by the targeted property then
-MISSED_AT_FIRST_RUN = {"C04-s2", "C06-s2", "C09-s2", "C11-s2", "C13-s2", "C15-s2", "C17-s2", "C18-s2", "C19-s2", "C07-s2"}
+CAUGHT_AT_FIRST_RUN = {
+    "C05-s1": ["C05/G/alloc/oom-after-gc"], "C12-s1": ["C12/H/remove_with_hint/home-slot-differs"], "C16-s1": ["C16/A/swap_cards/error-paths-restore"],
+    "C03-s1": ["C03/B/_run/budget-is-per-vm"], "C10-s2": ["C10/S/encode_str/payload"], "C16-s2": ["C16/S/remove_child/DynamicCall"],
+    "C03-s2": ["C03/Z/_run/decrement-guarded"], "C08-s2": ["C08/O/resolve_function/documented-order", "C08/O/resolve_function/later-lookups-only-on-miss"],
+    "C12-s2": ["C12/E/adjust_capacity/alloc-before-mutation", "C12/E/adjust_capacity/no-other-failure-after-mutation"],
+    "C14-s2": ["C14/N/ValueStack::last/read-is-below-height"],
+}
 rows = []
 for sid, (p, what, needs, story) in sorted(M.items()):
     d = os.path.join(V, "seeded", sid)
@@ -51,8 +57,15 @@ for sid, (p, what, needs, story) in sorted(M.items()):
     chk = json.load(open(os.path.join(d, "checks.json"))) if os.path.exists(os.path.join(d, "checks.json")) else {"reported": {}}
     old = json.load(open(os.path.join(d, "meta.json"))) if os.path.exists(os.path.join(d, "meta.json")) else {}
     first = old.get("reported_at_first_run", chk["reported"] if "reported_at_first_run" not in old else {})
-    if sid in MISSED_AT_FIRST_RUN and "reported_at_first_run" not in old:
-        first = {}
+    # authoritative record of the first run of the targeted property's check against each seed
+    if sid in CAUGHT_AT_FIRST_RUN:
+        first = {p: CAUGHT_AT_FIRST_RUN[sid]}
+    else:
+        first = {k: v for k, v in first.items() if k != p} if isinstance(first, dict) else {}
+        if sid not in ("C07-s1", "C08-s1"):
+            first = {}
+        else:
+            first = {"C07-s1": {"C12": ["C12/H/remove_with_hint/home-slot-differs"]}, "C08-s1": {"C06": ["C06/X/process_card[Closure]/label-components-cannot-cancel"]}}[sid]
     meta = {"id": sid, "property": p,
             "origin": "fresh sub-agent given only the property text and a scratch worktree of /repo",
             "change": what, "needs_to_manifest": needs,
